@@ -607,6 +607,7 @@ type respObs struct {
 	Panic    string                 `json:"panic,omitempty"`
 	AppRan   bool                   `json:"app_ran"`
 	Body     string                 `json:"-"`
+	Header   http.Header            `json:"-"`
 }
 
 type nopWriter struct {
@@ -622,6 +623,7 @@ func (w *World) do(r Req) (o respObs) {
 	if r.Route != "App" {
 		target = w.cfg.Mount + r.Path
 	}
+	target = (&url.URL{Path: target}).EscapedPath()
 	if r.RawQuery != "" {
 		target += "?" + r.RawQuery
 	}
@@ -682,6 +684,7 @@ func (w *World) do(r Req) (o respObs) {
 		hdr = rec.Result().Header
 	}
 	o.Location = hdr.Get("Location")
+	o.Header = hdr
 	o.Body = rec.Body.String()
 	if hdr.Get("Content-Type") == harnessMime {
 		var d struct {
@@ -703,4 +706,23 @@ func sortedKeys(m map[string]string) []string {
 	}
 	sort.Strings(ks)
 	return ks
+}
+
+type rawResp struct {
+	status int
+	header map[string]string
+	body   string
+}
+
+// doRaw runs a request and returns everything a client sees of the response
+func (w *World) doRaw(r Req) rawResp {
+	o := w.do(r)
+	out := rawResp{status: o.Status, body: o.Body, header: map[string]string{}}
+	for k, v := range o.Header {
+		if k == "X-Browser-Echo" {
+			continue
+		}
+		out.header[k] = strings.Join(v, "|")
+	}
+	return out
 }
